@@ -178,6 +178,8 @@ TReopen ==
        /\ Reopen
        /\ r.exists = TRUE
        /\ r.loaded = r.want
+       \* closing the last handle and loading again left every table of every attached database, and the files, as they were
+       /\ (Has(r, "csame") => r.csame) /\ (Has(r, "cfiles") => r.cfiles)
        /\ ObsOK(r.obs, fam', live', {}, par', nm', kids', tlive', {}, mem')   \* no handle survives
        /\ Obs2Now(r)
        /\ NoWrite(r)
